@@ -31,4 +31,24 @@ mod verif_kani_unit {
         assert!(r.is_ok() == ((ba && bb) || a.dimensions == b.dimensions));
         std::mem::forget(a); std::mem::forget(b); std::mem::forget(r);
     }
+
+    /// C16 conversion formula, offset part (bounded stand-in: both scales fixed to 1.0; all moderate finite scalars and
+    /// offsets; same dimensions): the result is bit-for-bit ((x * 1 + offset) - to.offset) / 1 -- offsets are never skipped
+    #[kani::proof]
+    #[kani::unwind(10)]
+    #[kani::stub(alloc::fmt::format, stub_format)]
+    fn k_convert_offsets() {
+        let d = any_dims();
+        let mut a = any_unit(false); let mut b = any_unit(false);
+        a.dimensions = d; b.dimensions = d;
+        a.scale = 1.0; b.scale = 1.0;
+        let x = any_moderate();
+        let r = a.convert_to(x, &b);
+        kani::cover!(r.is_ok());
+        match &r {
+            Ok(v) => assert!(v.to_bits() == (((x * a.scale + a.offset) - b.offset) / b.scale).to_bits()),
+            Err(_) => assert!(false),
+        }
+        std::mem::forget(a); std::mem::forget(b); std::mem::forget(r);
+    }
 }
